@@ -37,6 +37,10 @@ impl Host {
         let app = Deltio::new();
         let builder = app.server_builder();
         let sd = async { rx.await.unwrap_or(()) }.shared();
+        // the push loop runs next to the server, as in src/main.rs
+        let push_loop = app.push_loop(Duration::from_millis(200));
+        let sd2 = sd.clone();
+        tokio::spawn(async move { tokio::select! { _ = push_loop.run() => {}, _ = sd2 => {} } });
         tokio::spawn(async move { let _ = builder.serve_with_incoming_shutdown(uds, sd).await; });
         let sf = Arc::new(sock_file.clone());
         let channel = Endpoint::try_from("http://doesnt.matter").unwrap()
@@ -174,7 +178,7 @@ async fn s_stream_modack(h: &mut Host) -> Result<(), Fail> {
     tokio::time::sleep(Duration::from_millis(100)).await;
     jump(Duration::from_secs(50)).await;    // 50 s after the extension: still leased
     if let Ok(Ok(Some(r))) = tokio::time::timeout(Duration::from_millis(400), inbound.message()).await {
-        if !r.received_messages.is_empty() { return Err(f("C05", "a delivery extended by 60 s inside a StreamingPull was redelivered within 50 s".into())); }
+        if !r.received_messages.is_empty() { return Err(f("C05+C03", "a delivery extended by 60 s inside a StreamingPull was handed out again within 50 s, while still leased".into())); }
     }
     jump(Duration::from_secs(15)).await;    // 65 s after the extension: redelivered with a new ack id
     match tokio::time::timeout(Duration::from_secs(15), inbound.message()).await {
@@ -340,6 +344,135 @@ async fn s_lists_and_content(h: &mut Host) -> Result<(), Fail> {
     Ok(())
 }
 
+
+/// C15 "returns as soon as at least one message is available": two Pulls are parked, one Publish brings two messages,
+/// each Pull takes one (max_messages = 1) - neither may stay parked while a message sits in the queue.
+async fn s_two_waiters(h: &mut Host) -> Result<(), Fail> {
+    let (t, s) = ("projects/p/topics/tw", "projects/p/subscriptions/tw");
+    h.topic(t).await.map_err(setup("topic"))?;
+    h.sub(s, t, 0, None).await.map_err(setup("sub"))?;
+    let mut waiters = Vec::new();
+    for _ in 0..2 {
+        let mut c = h.subscriber.clone();
+        waiters.push(tokio::spawn(async move {
+            #[allow(deprecated)]
+            c.pull(PullRequest { subscription: s.to_string(), return_immediately: false, max_messages: 1 }).await.map(|r| r.into_inner().received_messages)
+        }));
+        tokio::time::sleep(Duration::from_millis(150)).await;
+    }
+    h.publish(t, vec![(b"a".to_vec(), HashMap::new()), (b"b".to_vec(), HashMap::new())]).await.map_err(setup("publish"))?;
+    let mut got = 0usize;
+    for (i, w) in waiters.into_iter().enumerate() {
+        match tokio::time::timeout(Duration::from_secs(10), w).await {
+            Ok(Ok(Ok(m))) if m.len() == 1 => { got += 1; }
+            Ok(Ok(Ok(m))) => return Err(f("C15", format!("parked Pull(max_messages=1) #{} returned {} messages", i, m.len()))),
+            Ok(Ok(Err(e))) => return Err(f("C15", format!("parked Pull #{} failed with {:?}", i, e.code()))),
+            _ => return Err(f("C15+C06", format!("2 messages published for 2 parked Pull(max_messages=1): Pull #{} is still parked after 10 s although a message is available ({} delivered)", i, got))),
+        }
+    }
+    Ok(())
+}
+
+/// minimal HTTP/1.1 endpoint for push deliveries: hands every request body to the scenario and answers 200
+async fn push_endpoint() -> Result<(String, tokio::sync::mpsc::UnboundedReceiver<Vec<u8>>), Fail> {
+    use tokio::io::{AsyncReadExt, AsyncWriteExt};
+    let l = tokio::net::TcpListener::bind("127.0.0.1:0").await.map_err(setup("bind push endpoint"))?;
+    let port = l.local_addr().map_err(setup("addr"))?.port();
+    let (tx, rx) = tokio::sync::mpsc::unbounded_channel::<Vec<u8>>();
+    tokio::spawn(async move {
+        loop {
+            let (mut sock, _) = match l.accept().await { Ok(x) => x, Err(_) => return };
+            let tx = tx.clone();
+            tokio::spawn(async move {
+                let mut buf: Vec<u8> = Vec::new();
+                loop {
+                    // one request: headers up to CRLFCRLF, then Content-Length bytes
+                    let head_end = loop {
+                        if let Some(p) = buf.windows(4).position(|w| w == b"\r\n\r\n") { break p + 4; }
+                        let mut chunk = [0u8; 8192];
+                        match sock.read(&mut chunk).await { Ok(0) | Err(_) => return, Ok(n) => buf.extend_from_slice(&chunk[..n]) }
+                    };
+                    let head = String::from_utf8_lossy(&buf[..head_end]).to_ascii_lowercase();
+                    let len: usize = head.lines().find_map(|l| l.strip_prefix("content-length:").map(|v| v.trim().parse().unwrap_or(0))).unwrap_or(0);
+                    while buf.len() < head_end + len {
+                        let mut chunk = [0u8; 8192];
+                        match sock.read(&mut chunk).await { Ok(0) | Err(_) => return, Ok(n) => buf.extend_from_slice(&chunk[..n]) }
+                    }
+                    let body = buf[head_end..head_end + len].to_vec();
+                    buf.drain(..head_end + len);
+                    let _ = tx.send(body);
+                    if sock.write_all(b"HTTP/1.1 200 OK\r\ncontent-length: 0\r\n\r\n").await.is_err() { return; }
+                }
+            });
+        }
+    });
+    Ok((format!("http://127.0.0.1:{}/push", port), rx))
+}
+
+/// C09 on the HTTP push path: the JSON names the subscription and carries the standard-base64 data, the attributes and
+/// the message id that Publish returned
+async fn s_push_content(h: &mut Host) -> Result<(), Fail> {
+    use base64::Engine;
+    let (t, s) = ("projects/p/topics/pc", "projects/p/subscriptions/pc");
+    let (url, mut rx) = push_endpoint().await?;
+    h.topic(t).await.map_err(setup("topic"))?;
+    h.sub(s, t, 0, Some(&url)).await.map_err(setup("push sub"))?;
+    let attrs: HashMap<String, String> = [("k".to_string(), "v".to_string()), ("k\u{e9}".to_string(), "\u{1F600}".to_string())].into_iter().collect();
+    let payloads: Vec<(Vec<u8>, HashMap<String, String>)> = vec![
+        (b"Hello".to_vec(), HashMap::new()),
+        (b"Is this ok???>>~~".to_vec(), attrs.clone()),
+        (vec![0xfb, 0xff, 0xfe, 0xfb, 0xef, 0xbe], HashMap::new()),
+        ((0..=255u8).collect(), attrs.clone()),
+        (vec![1], HashMap::new()), (vec![1, 2], HashMap::new()),
+    ];
+    let ids = h.publish(t, payloads.clone()).await.map_err(setup("publish"))?;
+    let mut seen = vec![false; payloads.len()];
+    jump(Duration::from_secs(1)).await;
+    while seen.iter().any(|x| !*x) {
+        let body = match tokio::time::timeout(Duration::from_secs(10), rx.recv()).await {
+            Ok(Some(b)) => b,
+            _ => return Err(f("SETUP", format!("push endpoint received {} of {} messages within 10 s", seen.iter().filter(|x| **x).count(), payloads.len()))),
+        };
+        let v: serde_json::Value = serde_json::from_slice(&body).map_err(|e| f("C09", format!("push body is not JSON: {}", e)))?;
+        if v["subscription"].as_str() != Some(s) { return Err(f("C09", format!("push payload names the subscription {:?}, expected {:?}", v["subscription"], s))); }
+        let mid = v["message"]["messageId"].as_str().unwrap_or("").to_string();
+        let k = ids.iter().position(|i| *i == mid).ok_or_else(|| f("C09", format!("push payload carries message id {:?}, Publish returned {:?}", mid, ids)))?;
+        if v["message"]["message_id"].as_str() != Some(mid.as_str()) { return Err(f("C09", "push payload: message_id and messageId differ".into())); }
+        let data = v["message"]["data"].as_str().unwrap_or("<missing>");
+        match base64::engine::general_purpose::STANDARD.decode(data) {
+            Ok(bytes) if bytes == payloads[k].0 => {}
+            Ok(bytes) => return Err(f("C09", format!("push payload data {:?} decodes to {:?}, published {:?}", data, bytes, payloads[k].0))),
+            Err(e) => return Err(f("C09", format!("push payload data {:?} for published bytes {:?} is not standard base64: {}", data, payloads[k].0, e))),
+        }
+        let got_attrs: HashMap<String, String> = v["message"]["attributes"].as_object().map(|o| o.iter().map(|(a, b)| (a.clone(), b.as_str().unwrap_or("").to_string())).collect()).unwrap_or_default();
+        if got_attrs != payloads[k].1 { return Err(f("C09", format!("push payload attributes {:?}, published {:?}", got_attrs, payloads[k].1))); }
+        seen[k] = true;
+    }
+    Ok(())
+}
+
+/// C13 through the RPC surface with enough resources that page tokens take many different values
+async fn s_long_walk(h: &mut Host) -> Result<(), Fail> {
+    let mut topics = Vec::new();
+    for i in 0..300 { let n = format!("projects/lw/topics/t{}", i); h.topic(&n).await.map_err(setup("topic"))?; topics.push(n); }
+    for size in [1, 7, 250] {
+        let mut tok = String::new();
+        let mut got = Vec::new();
+        for _ in 0..400 {
+            let r = match h.publisher.list_topics(ListTopicsRequest { project: "projects/lw".into(), page_size: size, page_token: tok.clone() }).await {
+                Ok(r) => r.into_inner(),
+                Err(e) => return Err(f("C13", format!("ListTopics(page_size={}) rejected the server-issued token {:?} after {} topics: {:?}", size, tok, got.len(), e.code()))),
+            };
+            if r.topics.len() > size as usize { return Err(f("C13", format!("ListTopics page of {} > page size {}", r.topics.len(), size))); }
+            got.extend(r.topics.iter().map(|t| t.name.clone()));
+            tok = r.next_page_token;
+            if tok.is_empty() { break; }
+        }
+        if got != topics { return Err(f("C13", format!("ListTopics(page_size={}) walk over 300 topics yields {} names (first difference at {:?})", size, got.len(), got.iter().zip(topics.iter()).position(|(a, b)| a != b)))); }
+    }
+    Ok(())
+}
+
 /// C15 (streaming limit) and C17 (inconsistent control messages) on an open StreamingPull
 async fn s_stream_limits(h: &mut Host) -> Result<(), Fail> {
     let (t, s) = ("projects/p/topics/sl", "projects/p/subscriptions/sl");
@@ -399,8 +532,13 @@ pub fn run_all() -> i32 {
         ("namespace", |h| Box::pin(s_namespace(h))),
         ("malformed", |h| Box::pin(s_malformed(h))),
         ("lists_and_content", |h| Box::pin(s_lists_and_content(h))),
+        ("two_waiters", |h| Box::pin(s_two_waiters(h))),
+        ("push_content", |h| Box::pin(s_push_content(h))),
+        ("long_walk", |h| Box::pin(s_long_walk(h))),
     ];
     let n = scenarios.len();
+    // every scenario runs; each failing one prints its own WITNESS line (the driver picks the one for the property at hand)
+    let (mut witnesses, mut setup_errors) = (0, 0);
     for (name, sc) in scenarios {
         let rt = tokio::runtime::Builder::new_current_thread().enable_all().build().unwrap();
         let r: Result<(), Fail> = rt.block_on(async {
@@ -411,11 +549,13 @@ pub fn run_all() -> i32 {
         });
         rt.shutdown_timeout(Duration::from_millis(200));
         if let Err(e) = r {
-            if e.prop == "SETUP" { println!("SETUP-ERROR scenario {}: {}", name, e.what); return 3; }
+            if e.prop == "SETUP" { println!("SETUP-ERROR scenario {}: {}", name, e.what); setup_errors += 1; continue; }
             println!("WITNESS {{\"kind\":\"rpc\",{},\"scenario\":\"{}\",\"observed\":{:?}}}", crate::prop_json(e.prop), name, e.what);
-            return 1;
+            witnesses += 1;
         }
     }
+    if witnesses > 0 { return 1; }
+    if setup_errors > 0 { return 3; }
     println!("NO-WITNESS rpc scenarios={}", n);
     0
 }
